@@ -30,6 +30,8 @@ HISTORY = {
     'C13-B': ('caught', 'R-decode-contained existed'),
     'C05-A': ('caught', 'R-chunk-length existed (under C11); afterwards also listed under C05'),
     'C05-B': ('missed', 'new rule R-vote-refusal-justified'),
+    'C13r2-A': ('missed', 'new rule R-disconnect-idempotent'),
+    'C13r2-B': ('missed', 'new rule R-length-symmetry'),
     'C14-A': ('missed', 'new rule R-silent-timeout'),
     'C14-B': ('caught', 'R-drop-teardown existed'),
     'C15-A': ('caught', 'R-consumer-state existed'),
@@ -60,6 +62,8 @@ HISTORY = {
     'C10r2-B': ('caught', 'R-apply-on-append existed'),
     'C11r2-A': ('caught', 'R-bounded-write existed'),
     'C11r2-B': ('missed', 'R-chunk-length extended: the chunked bytes must be pickled from the entry fetched in this pass'),
+    'C13r2-A': ('missed', 'new rule R-disconnect-idempotent'),
+    'C13r2-B': ('missed', 'new rule R-length-symmetry'),
     'C14-A': ('missed', 'new rule R-silent-timeout'),
     'C15-B': ('missed', 'R-cmd-shapes extended: shape selection evaluated for empty/non-empty args x kwargs; listed under C15'),
 }
